@@ -247,8 +247,8 @@ def _get_input_data(ctx: Ctx, c: Collector) -> None:
                             pr.append("the pulled value is not cache[src_eid][src_attr]")
                         elif e.term[2][0] == "phi" and e.term[2][3] != T.NONE and e.term[2][2] != T.NONE:
                             pr.append("when the source did not produce the attribute, the value is not None: the value of the previous data-flow (another source) is delivered")
-                        dest_bind = [b for b in s.of_kind("bind") if b.term[1] == e.term[1][1]]
-                        if dest_bind and not (T.contains(dest_bind[0].term[2], de) and T.contains(dest_bind[0].term[2], da) and T.contains(dest_bind[0].term[2], inp)):
+                        tgt_full = unalias(e.term[1][1], s, fi)
+                        if not (T.contains(tgt_full, de) and T.contains(tgt_full, da) and T.contains(tgt_full, inp)):
                             pr.append("the pulled value is not stored under inputs[dest_eid][dest_attr]")
                     else:
                         pr.append("pulled dataflows are not iterated per (source port, destination port)")
@@ -309,17 +309,14 @@ def _buffer(ctx: Ctx, c: Collector) -> None:
                 pr.append("the loop does not stop on an empty queue")
         # the popped tuple is stored under [eid][attr][src_full_id] = value with add()'s field order
         st = [e for e in s.of_kind("store") if e.iters == p.iters]
-        taken = None
-        for b in s.of_kind("bind"):
-            if b.term[2] == p.term:
-                taken = b.term[1]
-        if not st or taken is None:
+        if not st:
             pr.append("the popped entry is not stored in the inputs")
         else:
-            e = st[0]
-            f = lambda i: ("idx", taken, T.const(i))  # noqa: E731
+            e = st[-1]
+            f = lambda i: ("idx", p.term, T.const(i))  # noqa: E731
             want_t = ("idx", call(("attr", call(("attr", inp, "setdefault"), f(3), ("dict", ())), "setdefault"), f(4), ("dict", ())), f(2))
-            if e.term[1] != want_t or e.term[2] != f(5):
+            got_t, got_v = unalias(e.term[1], s, fi), unalias(e.term[2], s, fi)
+            if got_t != want_t or got_v != f(5):
                 pr.append("reader and writer disagree on the tuple layout: the popped entry is not stored as inputs[entry[3]][entry[4]][entry[2]] = entry[5]")
             if e.guards != p.guards:
                 pr.append("a popped entry is only conditionally delivered (popped but lost)")
